@@ -161,6 +161,7 @@ DEFAULT_PROFILE = {
     "p_shuffle_keys": 0.3,
     "p_repeat_level": 0.0,
     "p_early_finish_pbt": 0.0,
+    "p_sparse_moasha": 0.0,
     "p_io_latency": 0.5,
     "p_async_stop": 0.15,
     "p_nodelay_false": 0.12,
@@ -493,6 +494,11 @@ def gen_scenario(root, profile=None):
     if r2.chance(p["p_shuffle_keys"]) and p["world"] != "sim":
         script["shuffle_keys"] = True  # the script lists the entries of a report in varying order
     script["level_noise"] = r2.choice([0.4, 0.4, 0.15, 0.05])
+    if kind == "moasha" and r2.chance(p["p_sparse_moasha"]) and max_t >= 4:
+        # scripts that report only every k-th epoch (and their last one), some of which end on their own before the
+        # maximum resource: a report can pass several rung levels at once, and a trial can complete between rung levels
+        script["report_every"] = r2.choice([2, 3, 4])
+        script["early_finish"] = {"p": 0.5, "at": r2.randint(2, max_t - 1)}
     if kind == "moasha" and sched.get("priority") == "nondominated" and r2.chance(0.35):
         sched["max_num_samples"] = r2.randint(1, 6)  # only the top k of the non-dominated sort get distinct priorities
     if kind == "pbt" and r2.chance(p["p_early_finish_pbt"]) and max_t >= 3:
